@@ -1,4 +1,4 @@
-package core
+package rapidx
 
 import (
 	"flag"
@@ -15,16 +15,18 @@ import (
 
 var initOnce sync.Once
 
-// InitRapid prepares the testing/flag packages for using rapid outside `go test`.
-func InitRapid() {
+// Init prepares the testing/flag packages for using rapid outside `go test`.
+func Init() {
 	initOnce.Do(func() {
-		testing.Init()
-		_ = flag.CommandLine.Parse([]string{"-rapid.nofailfile"})
+		if !flag.Parsed() {
+			testing.Init()
+			_ = flag.CommandLine.Parse([]string{"-rapid.nofailfile"})
+		}
 	})
 }
 
 // RapidResult is the outcome of one rapid.Check run.
-type RapidResult struct {
+type Result struct {
 	Passed  int
 	Failed  bool
 	Flaky   bool
@@ -71,8 +73,8 @@ var rapidMu sync.Mutex
 
 // RapidCheck runs rapid.Check(prop) with the given number of checks and seed (never 0) and
 // a shrink budget. It is not re-entrant (rapid's configuration is global).
-func RapidCheck(name string, checks int, seed uint64, shrink time.Duration, prop func(*rapid.T)) *RapidResult {
-	InitRapid()
+func Check(name string, checks int, seed uint64, shrink time.Duration, prop func(*rapid.T)) *Result {
+	Init()
 	rapidMu.Lock()
 	defer rapidMu.Unlock()
 	if seed == 0 {
@@ -93,7 +95,7 @@ func RapidCheck(name string, checks int, seed uint64, shrink time.Duration, prop
 		}()
 		rapid.Check(tb, prop)
 	}()
-	res := &RapidResult{Seed: seed}
+	res := &Result{Seed: seed}
 	for _, l := range tb.logs {
 		if m := passedRe.FindStringSubmatch(l); m != nil {
 			res.Passed, _ = strconv.Atoi(m[1])
